@@ -40,13 +40,18 @@ META = {
         "brought to DNF): each alternative pairs an extension flag with its own tag (html_image/img, html_admonition/div + class "
         "word 'admonition'); each run_directive call (in html_to_nodes or in a helper it calls) runs only for the matching tag. "
         "Every class test is a word test on the white-space-split class list, not a substring test; the fragment is tokenized by "
-        "a parser object built (or reset) for that fragment (html.parser keeps buffered text / CDATA mode between feed() calls); "
-        "between tokenizing and the gate only nodes whose rendering is white space are discarded, and not recursively; both html "
+        "a parser object built (or reset) for that fragment - by a constructor or un-memoised factory on every path to the feed, "
+        "whether in tokenize_html or in html_to_nodes itself (html.parser keeps buffered text / CDATA mode between feed() calls) - "
+        "and the parser is closed after the feed, so that an unterminated tag/comment at the end of the fragment is part of the "
+        "tree and not silently dropped; between tokenizing and the gate only nodes whose rendering is white space are discarded "
+        "(Element.strip's filter and any filtering comprehension on the way are judged by what fails them), and Element.strip is "
+        "applied to the fragment root only, non-recursively: inside a converted element white-space text is content; both html "
         "handlers hand token.content to html_to_nodes and attach all returned nodes. "
         "R2 (GFM filter): the finite language of the filter regex (enumerated from the re._parser tree) is exactly '<' ['/'] tag "
         "for the nine tags of GFM 6.11, case-insensitive, with a tag-name-terminator look-ahead covering all HTML terminators and "
         "no name character; the replacement removes '<'; no count limit; conditional on gfm_only alone; it dominates every use "
-        "of the text and every return. "
+        "of the filtered text and every return; when the filtered text is kept in a second variable, the unfiltered parameter is "
+        "never handed to the pass-through constructor. "
         "R3: attribute whitelists that feed a directive's option block (followed through helper parameters) are subsets of that "
         "docutils directive's option_spec (read from the docutils sources via the directive registry). "
         "R4 (taint, interprocedural over the module's helpers): an HTML attribute value or non-whitelisted attribute name reaches "
@@ -54,8 +59,8 @@ META = {
         "json.dumps(x, ensure_ascii=False) with U+0085/U+2028/U+2029 re-escaped, directly or in a helper that may return the "
         "value unquoted only under a fullmatch with a regex whose language consists of plain scalars the option tokenizer returns "
         "unchanged (helper returns are judged under the branch facts that dominate them). "
-        "R5: raw nodes are removed from / replaced in a tree only inside a deep copy made on every path, or by the "
-        "raw_enabled=False security filter of the two parsers. "
+        "R5: raw nodes are removed from / replaced in a tree only inside a deep copy made on every path, or by the security "
+        "filter of the parsers under a condition that implies raw_enabled is false (read with a true default). "
         "R6: the enable_extensions set html_to_nodes reads is changed in place only between saving a copy and re-assigning that "
         "copy in a finally block (figure-md's temporary html_image)."
     ),
@@ -313,7 +318,7 @@ def _is_source_text(cx: Ctx, flt: Filter, e: ast.expr, depth: int = 0) -> bool |
             return None
         res = []
         for d in defs:
-            if flt.stmt is not None and (d is flt.call or d is flt.stmt):
+            if flt.stmt is not None and (d is flt.call or d is flt.stmt or (not isinstance(d, ast.expr) or isinstance(d, ast.Tuple)) and _stmt_of_safe(cx, d) is flt.stmt):
                 res.append(True)
             elif isinstance(d, ast.expr):
                 res.append(_is_source_text(cx, flt, d, depth + 1))
@@ -334,6 +339,13 @@ def _is_source_text(cx: Ctx, flt: Filter, e: ast.expr, depth: int = 0) -> bool |
     if isinstance(e, (ast.Call, ast.BinOp, ast.JoinedStr, ast.Subscript, ast.Constant, ast.Attribute)):
         return False
     return None
+
+
+def _stmt_of_safe(cx: Ctx, n: ast.AST):
+    try:
+        return cx.cfg.stmt_of(n)
+    except Unsupported:
+        return None
 
 
 def _where(st: ast.AST) -> str:
@@ -830,67 +842,199 @@ def _self_class_text(v) -> bool:
     return isinstance(v, ast.Call) and isinstance(v.func, ast.Attribute) and v.func.attr == "get" and dotted(v.func.value) == "self" and bool(v.args) and isinstance(v.args[0], ast.Constant) and v.args[0].value == "class"
 
 
+def _parse_html_class_of(cx: Ctx, mod: Module, e: ast.expr, fn: FunctionInfo | None):
+    """The parse_html class an expression is an instance of: a constructor call, or a name bound to one (local or module level)."""
+    if isinstance(e, ast.Call) and dotted(e.func):
+        ci = cx.corpus.find_class(mod.resolve(dotted(e.func)))
+        if ci is not None and ci.module.name.endswith("parse_html"):
+            return ci
+        return None
+    if isinstance(e, ast.Name):
+        vals = []
+        if fn is not None:
+            vals = [parent(x).value for x in fn.local_nodes() if isinstance(x, ast.Name) and x.id == e.id and isinstance(x.ctx, ast.Store) and isinstance(parent(x), (ast.Assign, ast.AnnAssign)) and getattr(parent(x), "value", None) is not None]
+        if not vals and e.id in mod.const_nodes:
+            vals = [mod.const_nodes[e.id]]
+        for v in vals:
+            ci = _parse_html_class_of(cx, mod, v, None)
+            if ci is not None:
+                return ci
+    return None
+
+
 def _is_tokenizer_call(cx: Ctx, c: ast.AST) -> bool:
-    if not (isinstance(c, ast.Call) and dotted(c.func)):
+    """``tokenize_html(text, ...)`` (a parse_html function given the text) or ``<HtmlToAst object>.feed(text)``"""
+    if not isinstance(c, ast.Call) or not any(isinstance(x, ast.Name) and x.id == cx.p_text for a in c.args for x in ast.walk(a)):
         return False
-    fn = cx.corpus.find_function(cx.mod.resolve(dotted(c.func)))
-    return fn is not None and fn.module.name.endswith("parse_html") and any(isinstance(x, ast.Name) and x.id == cx.p_text for a in c.args for x in ast.walk(a))
+    if dotted(c.func):
+        fn = cx.corpus.find_function(cx.mod.resolve(dotted(c.func)))
+        if fn is not None and fn.module.name.endswith("parse_html") and fn.cls is None:
+            return True
+    if isinstance(c.func, ast.Attribute) and c.func.attr == "feed":
+        return _parse_html_class_of(cx, cx.mod, c.func.value, cx.fi) is not None
+    return False
 
 
 def _pre_gate_tree(cx: Ctx, rep: Report, gate: dict) -> None:
     """The elements the gate quantifies over are all top-level nodes of the tokenized fragment except white-space text:
-    anything else that is dropped first (a blank comment, ``<?>``) would let `<!-- --><img ...>` be converted and the
-    dropped markup be lost instead of the block passing through."""
+    anything else that is dropped first (a blank comment, ``<?>``, text, because the collection was filtered) would let
+    `<!-- --><img ...>` / `<img ...> text` be converted and the dropped part be lost instead of the block passing through."""
     fi, m = cx.fi, cx.mod
+    el = cx.corpus.cls("parsers.parse_html:Element")
     root = gate["root"]
-    defs = cx.defs_of(root) if root.isidentifier() else []
-    if not defs or not all(isinstance(d, ast.expr) for d in defs):
-        raise Unsupported(f"the gated collection `{root}` is not a plainly assigned local")
-    chain: list[ast.Call] = []
-    bases = 0
-    for d in defs:
-        e = d
-        while isinstance(e, ast.Call) and isinstance(e.func, ast.Attribute) and not _is_tokenizer_call(cx, e):
-            chain.append(e)
-            e = e.func.value
-        if _is_tokenizer_call(cx, e):
-            bases += 1
-        elif not (isinstance(e, ast.Name) and e.id == root and e is not d):  # `root = root.strip(...)` as a second step
-            raise Unsupported(f"`{root}` is not the tokenized text (optionally stripped): {short(d, 60)}")
+    if not root.isidentifier():
+        raise Unsupported(f"the gated collection `{root}` is not a local name")
+    seen: set[str] = set()
+    root_names: set[str] = set()
+
+    def follow(name: str) -> int:
+        """judge what is dropped on the way from the tokenizer to ``name``; returns the number of tokenizer calls found"""
+        if name in seen:
+            return 0
+        seen.add(name)
+        root_names.add(name)
+        defs = cx.defs_of(name)
+        if not defs or not all(isinstance(d, ast.expr) for d in defs):
+            raise Unsupported(f"the gated collection `{name}` is not a plainly assigned local")
+        bases = 0
+        for d in defs:
+            e = d
+            # list(...)/tuple(...) wrappers
+            while isinstance(e, ast.Call) and isinstance(e.func, ast.Name) and e.func.id in ("list", "tuple") and len(e.args) == 1:
+                e = e.args[0]
+            if isinstance(e, (ast.ListComp, ast.GeneratorExp)):
+                if len(e.generators) != 1 or not isinstance(e.generators[0].target, ast.Name) or not isinstance(e.generators[0].iter, ast.Name):
+                    raise Unsupported(f"`{name}` is built by a comprehension the rule does not model: {short(e, 60)}")
+                var = e.generators[0].target.id
+                if not (isinstance(e.elt, ast.Name) and e.elt.id == var):
+                    raise Unsupported(f"`{name}`: the comprehension rewrites its elements: {short(e, 60)}")
+                k = f"{fi.fq}|{name} = {short(e, 70)}|discards only white-space text"
+                if e.generators[0].ifs:
+                    cond = e.generators[0].ifs[0] if len(e.generators[0].ifs) == 1 else ast.BoolOp(op=ast.And(), values=list(e.generators[0].ifs))
+                    _judge_drop_filter(cx, rep, cond, var, k, m.site(e), m, f"`{name}`")
+                bases += follow(e.generators[0].iter.id)
+                continue
+            while isinstance(e, ast.Call) and isinstance(e.func, ast.Attribute) and not _is_tokenizer_call(cx, e):
+                meth = cx.corpus.lookup_method(el, e.func.attr)
+                if e.func.attr != "strip" or meth is None:
+                    raise Unsupported(f"cannot tell whether `.{e.func.attr}(...)` keeps every top-level node of the fragment")
+                _judge_element_strip(cx, rep, meth)
+                e = e.func.value
+            if _is_tokenizer_call(cx, e):
+                bases += 1
+            elif isinstance(e, ast.Name) and e.id == name and e is not d:
+                pass  # `root = root.strip(...)` as a second step
+            elif isinstance(e, ast.Name) and e.id != name:
+                bases += follow(e.id)
+            else:
+                raise Unsupported(f"`{name}` is not the tokenized text (optionally stripped): {short(d, 60)}")
+        return bases
+
+    bases = follow(root)
     if bases != 1:
         raise Unsupported(f"`{root}` is tokenized {bases} times")
+    _strip_levels(cx, rep, root_names)
+
+
+def _strip_levels(cx: Ctx, rep: Report, root_names: set[str]) -> None:
+    """Element.strip may drop white-space text between the top-level nodes of the fragment (non-recursively);
+    inside a converted element white-space text is content: `<b>a</b> <i>b</i>` must not become `<b>a</b><i>b</i>`."""
     el = cx.corpus.cls("parsers.parse_html:Element")
-    for call in chain:
-        meth = cx.corpus.lookup_method(el, call.func.attr)
-        if call.func.attr != "strip" or meth is None:
-            raise Unsupported(f"cannot tell whether `.{call.func.attr}(...)` keeps every top-level node of the fragment")
-        _judge_element_strip(cx, rep, meth)
-    # Element.strip calls in html_to_nodes must not recurse: white space between inline tags inside the admonition is content
-    lv = set()
-    for n in fi.local_nodes():
-        if isinstance(n, ast.For) and isinstance(n.target, ast.Name) and unparse(n.iter) == root:
-            lv.add(n.target.id)
-    for n in fi.local_nodes():
-        if isinstance(n, ast.Call) and isinstance(n.func, ast.Attribute) and n.func.attr == "strip":
-            recv = n.func.value
-            if not (_is_tokenizer_call(cx, recv) or (isinstance(recv, ast.Name) and (recv.id in lv or recv.id == root))):
+    meth = cx.corpus.lookup_method(el, "strip")
+    if meth is None:
+        raise AnchorMissing("Element.strip not found")
+    funcs = [f for f in cx.mod.functions.values() if not f.is_lambda]
+    memo: dict[int, tuple | None] = {}
+
+    def level(e: ast.expr, fn: FunctionInfo, depth: int = 0):
+        """("elem", d): an element d levels below the fragment root (the root itself: 0); ("list", d): a list of such; None: not a tree value"""
+        if depth > 10:
+            return None
+        if id(e) in memo:
+            return memo[id(e)]
+        memo[id(e)] = None
+        r = None
+        if _is_tokenizer_call(cx, e):
+            r = ("elem", 0)
+        elif isinstance(e, ast.Name):
+            if fn is cx.fi and e.id in root_names:
+                r = ("elem", 0)
+            elif e.id in fn.params and not any(isinstance(x, ast.Name) and x.id == e.id and isinstance(x.ctx, ast.Store) for x in fn.local_nodes()):
+                # a helper's parameter: what the callers in this module pass
+                idx = fn.params.index(e.id)
+                cands = []
+                for g in funcs:
+                    for c in g.local_nodes():
+                        if isinstance(c, ast.Call) and isinstance(c.func, ast.Name) and c.func.id == fn.name and fn.cls is None:
+                            arg = c.args[idx] if idx < len(c.args) else next((k_.value for k_ in c.keywords if k_.arg == e.id), None)
+                            if arg is not None:
+                                cands.append(level(arg, g, depth + 1))
+                cands = [c for c in cands if c is not None]
+                if cands:
+                    r = max(cands, key=lambda t: t[1])
+            else:
+                cands = []
+                for x in fn.local_nodes():
+                    if isinstance(x, ast.Name) and x.id == e.id and isinstance(x.ctx, ast.Store):
+                        p_ = parent(x)
+                        if isinstance(p_, (ast.For, ast.comprehension)) and p_.target is x:
+                            src = level(p_.iter, fn, depth + 1)
+                            if src is not None:
+                                cands.append(("elem", src[1] + 1) if src[0] == "elem" else ("elem", src[1]))
+                        elif isinstance(p_, (ast.Assign, ast.AnnAssign)) and getattr(p_, "value", None) is not None:
+                            src = level(p_.value, fn, depth + 1)
+                            if src is not None:
+                                cands.append(src)
+                if cands:
+                    r = max(cands, key=lambda t: t[1])
+        elif isinstance(e, ast.Attribute) and e.attr == "children":
+            src = level(e.value, fn, depth + 1)
+            r = ("list", src[1] + 1) if src is not None and src[0] == "elem" else None
+        elif isinstance(e, ast.Subscript) or (isinstance(e, ast.Call) and isinstance(e.func, ast.Attribute) and e.func.attr == "pop"):
+            base = e.value if isinstance(e, ast.Subscript) else e.func.value
+            src = level(base, fn, depth + 1)
+            if src is not None and not (isinstance(e, ast.Subscript) and isinstance(e.slice, ast.Slice)):
+                r = ("elem", src[1] + 1) if src[0] == "elem" else ("elem", src[1])
+            elif src is not None:
+                r = src
+        elif isinstance(e, ast.Call) and isinstance(e.func, ast.Attribute) and e.func.attr in ("strip", "deepcopy"):
+            src = level(e.func.value, fn, depth + 1)
+            r = src if src is not None and src[0] == "elem" else None
+        elif isinstance(e, (ast.ListComp, ast.GeneratorExp)) and len(e.generators) == 1:
+            src = level(e.generators[0].iter, fn, depth + 1)
+            if src is not None:
+                r = ("list", src[1] + 1) if src[0] == "elem" else src
+        elif isinstance(e, ast.Call) and isinstance(e.func, ast.Name) and e.func.id in ("list", "tuple", "reversed", "sorted") and len(e.args) == 1:
+            src = level(e.args[0], fn, depth + 1)
+            if src is not None:
+                r = ("list", src[1] + 1) if src[0] == "elem" else src
+        memo[id(e)] = r
+        return r
+
+    for fn in funcs:
+        for n in fn.local_nodes():
+            if not (isinstance(n, ast.Call) and isinstance(n.func, ast.Attribute) and n.func.attr == "strip"):
                 continue
-            meth = cx.corpus.lookup_method(el, "strip")
-            if meth is None:
-                raise AnchorMissing("Element.strip not found")
+            lv = level(n.func.value, fn)
+            if lv is None or lv[0] != "elem":
+                continue  # str.strip
+            d = lv[1]
             ps = meth.params[1:]
             r = arg_or_kw(n, ps.index("recurse"), "recurse") if "recurse" in ps else None
-            if r is None:
+            if r is None and meth.node.args.defaults:
                 a = meth.node.args
-                dflt = dict(zip([x.arg for x in a.args][-len(a.defaults):], a.defaults)).get("recurse") if a.defaults else None
-                r = dflt
-            k = f"{fi.fq}|{short(n, 60)}|inner white space kept"
-            if r is None or (isinstance(r, ast.Constant) and not r.value):
-                rep.ok("C17.R1", k, m.site(n), "strip is not recursive")
-            elif isinstance(r, ast.Constant):
-                rep.violation("C17.R1", k, m.site(n), f"`{short(n, 50)}` strips recursively: white-space text between inline elements inside the admonition body (`<b>a</b> <i>b</i>`) is removed before the body is rendered back to Markdown, so the inner content is not carried over unchanged")
-            else:
+                r = dict(zip([x.arg for x in a.args][-len(a.defaults):], a.defaults)).get("recurse")
+            what = "the fragment root" if d == 0 else ("a converted top-level element" if d == 1 else f"an element {d} levels below the fragment root")
+            k = f"{cx.mod.name}|Element.strip on {what}|inner white space kept"
+            site = fn.module.site(n)
+            if r is not None and not isinstance(r, ast.Constant):
                 raise Unsupported(f"recurse argument of `{short(n, 50)}` is not a literal")
+            if r is not None and r.value:
+                rep.violation("C17.R1", k + "|recursive", site, f"`{short(n, 50)}` strips recursively: white-space text between inline elements inside the admonition body (`<b>a</b> <i>b</i>`) is removed before the body is rendered back to Markdown, so the inner content is not carried over unchanged")
+            elif d == 0:
+                rep.ok("C17.R1", k, site, "white space between the top-level nodes of the fragment, not recursive")
+            else:
+                rep.violation("C17.R1", k, site, f"`{short(n, 50)}` (in {fn.qualname}) drops the white-space-only text nodes among the children of {what}: a blank that is the only thing between two inline elements / references (`<b>a</b> <i>b</i>`) disappears from the Markdown body handed to the directive (`<b>a</b><i>b</i>`), so the inner content is not carried over unchanged")
 
 
 def _judge_element_strip(cx: Ctx, rep: Report, meth: FunctionInfo) -> None:
@@ -903,35 +1047,68 @@ def _judge_element_strip(cx: Ctx, rep: Report, meth: FunctionInfo) -> None:
     if not (isinstance(comp.elt, ast.Name) and comp.elt.id == var):
         raise Unsupported(f"{meth.qualname}: the filtering comprehension rewrites its elements")
     cond = comp.generators[0].ifs[0]
-    k = f"{meth.fq}|discards only white-space text"
-    site = pm.site(cond)
-    if not (isinstance(cond, ast.UnaryOp) and isinstance(cond.op, ast.Not)):
-        raise Unsupported(f"{meth.qualname}: filter is not `if not (<what is dropped>)`: {short(cond, 60)}")
-    dropped = cond.operand
-    conj = dropped.values if isinstance(dropped, ast.BoolOp) and isinstance(dropped.op, ast.And) else [dropped]
+    _judge_drop_filter(cx, rep, cond, var, f"{meth.fq}|discards only white-space text", pm.site(cond), pm, "strip()")
+
+
+def _judge_drop_filter(cx: Ctx, rep: Report, cond: ast.expr, var: str, k: str, site: str, pm: Module, who: str) -> None:
+    """``[e for e in nodes if cond]``: what fails ``cond`` is dropped; it must be blank text only
+    (a class whose rendering is its data verbatim, and a blank test on that data)."""
+    if any(i.rule == "C17.R1" and i.key == k for i in rep.items):
+        return
+    ph = cx.corpus.mod("parsers.parse_html")
+    if isinstance(cond, ast.UnaryOp) and isinstance(cond.op, ast.Not):
+        dropped = cond.operand
+        conj = dropped.values if isinstance(dropped, ast.BoolOp) and isinstance(dropped.op, ast.And) else [dropped]
+        negated_atoms: list[ast.expr] = []
+    else:
+        # `if e.name` / `if isinstance(e, Tag)` ...: dropped = not cond
+        conj = []
+        negated_atoms = cond.values if isinstance(cond, ast.BoolOp) and isinstance(cond.op, ast.Or) else [cond]
     classes: list[str] | None = None
     blank = False
+    everything_but: list[str] = []
     for c in conj:
         if isinstance(c, ast.Call) and dotted(c.func) == "isinstance" and len(c.args) == 2 and isinstance(c.args[0], ast.Name) and c.args[0].id == var:
             t = c.args[1]
             names = [dotted(x) for x in (t.elts if isinstance(t, ast.Tuple) else [t])]
             if any(n is None for n in names):
-                raise Unsupported(f"{meth.qualname}: isinstance target not understood")
+                raise Unsupported(f"{who}: isinstance target not understood")
             classes = (classes or []) + names
         elif unparse(c) in (f"{var}.data.strip() == ''", f"not {var}.data.strip()", f"{var}.data.isspace()", f"'' == {var}.data.strip()", f"len({var}.data.strip()) == 0"):
             blank = True
+        elif isinstance(c, ast.UnaryOp) and isinstance(c.op, ast.Not):
+            negated_atoms.append(c.operand)
         else:
-            raise Unsupported(f"{meth.qualname}: drop condition not understood: {short(c, 60)}")
+            raise Unsupported(f"{who}: drop condition not understood: {short(c, 60)}")
+    for atom in negated_atoms:
+        # dropped when the atom is false
+        if unparse(atom) == f"{var}.name":
+            # terminal nodes are constructed with the empty name: not e.name == isinstance(e, TerminalElement)
+            te = ph.classes.get("TerminalElement")
+            init = te.methods.get("__init__") if te is not None else None
+            ok_fact = init is not None and any(isinstance(c_, ast.Call) and unparse(c_.func) == "super().__init__" and c_.args and isinstance(c_.args[0], ast.Constant) and c_.args[0].value == "" for c_ in init.local_nodes())
+            if not ok_fact:
+                raise Unsupported("TerminalElement.__init__ no longer passes the empty name to Element.__init__")
+            classes = (classes or []) + ["TerminalElement"]
+        elif isinstance(atom, ast.Call) and dotted(atom.func) == "isinstance" and len(atom.args) == 2 and isinstance(atom.args[0], ast.Name) and atom.args[0].id == var:
+            everything_but.append(unparse(atom.args[1]))
+        elif unparse(atom) in (f"{var}.data.strip()", f"not {var}.data.isspace()"):
+            blank = True
+        else:
+            raise Unsupported(f"{who}: keep condition not understood: {short(atom, 60)}")
+    if everything_but:
+        rep.violation("C17.R1", k, site, f"{who} keeps only {', '.join(everything_but)} nodes: text, comments and references next to a convertible element are dropped, so `<img ...> text` is converted and the rest is lost instead of the block passing through as raw HTML")
+        return
     if not classes:
-        raise Unsupported(f"{meth.qualname}: drop condition has no isinstance test")
+        raise Unsupported(f"{who}: drop condition has no class test")
     if not blank:
-        rep.violation("C17.R1", k, site, f"strip() discards every {'/'.join(classes)} node, blank or not: text next to a convertible element (`text <img ...>`) is lost and the block converted instead of passing through")
+        rep.violation("C17.R1", k, site, f"{who} discards every {'/'.join(classes)} node, blank or not: text, comments or references next to a convertible element (`<img ...> text`, `<img ...><!-- x -->`) are lost and the block is converted instead of passing through as raw HTML")
         return
     bad = []
     for cname in classes:
-        ci = cx.corpus.find_class(pm.resolve(cname))
+        ci = cx.corpus.find_class(pm.resolve(cname)) or ph.classes.get(cname)
         if ci is None:
-            raise Unsupported(f"{meth.qualname}: class {cname} not found in the package")
+            raise Unsupported(f"{who}: class {cname} not found in the package")
         for c_ in [ci] + cx.corpus.subclasses(ci):
             r = cx.corpus.lookup_method(c_, "render")
             rets = [n for n in r.local_nodes() if isinstance(n, ast.Return)] if r is not None else []
@@ -940,26 +1117,83 @@ def _judge_element_strip(cx: Ctx, rep: Report, meth: FunctionInfo) -> None:
                 how = short(rets[0].value, 30) if len(rets) == 1 else "not its data verbatim"
                 bad.append(f"{c_.name} (renders {how})")
     if bad:
-        rep.violation("C17.R1", k, site, f"strip() also discards blank nodes whose rendering is not white space: {', '.join(bad)}. `<!-- --><img src=a.png>` loses the comment and is converted to an image instead of the whole block passing through as raw HTML")
+        rep.violation("C17.R1", k, site, f"{who} also discards blank nodes whose rendering is not white space: {', '.join(bad)}. `<!-- --><img src=a.png>` loses the comment and is converted to an image instead of the whole block passing through as raw HTML")
     else:
         rep.ok("C17.R1", k, site, f"dropped: blank {'/'.join(classes)} (rendered verbatim, i.e. white space)")
+
+
+def _whole_fragment_consumed(cx: Ctx, rep: Report, tk: FunctionInfo, feed: ast.Call) -> None:
+    """html.parser keeps an unterminated tag / comment / reference at the end of the input in ``rawdata`` until close()
+    is called; without it that tail is in no node of the tree, so `<img src=a>\\n<b` looks like a lone <img>, is converted,
+    and the `<b` is dropped instead of the block passing through."""
+    tm = tk.module
+    recv = feed.func.value
+    ci = _parse_html_class_of(cx, tm, recv, tk)
+    if ci is None:
+        # a cached / looked-up object: the one parse_html class that is an html.parser.HTMLParser
+        ph = cx.corpus.mod("parsers.parse_html")
+        cands = [c_ for c_ in ph.classes.values() if any(b_.endswith("HTMLParser") for b_ in cx.corpus.external_bases(c_))]
+        ci = cands[0] if len(cands) == 1 else None
+    k_fn = None
+    closers: list[tuple[FunctionInfo, ast.AST]] = []
+    # (a) the caller closes the parser it fed
+    cfg = get_cfg(tk)
+    for c in tk.local_nodes():
+        if isinstance(c, ast.Call) and isinstance(c.func, ast.Attribute) and c.func.attr == "close" and unparse(c.func.value) == unparse(recv):
+            try:
+                if cfg.dominates(cfg.stmt_of(feed), cfg.stmt_of(c)) or cfg.stmt_of(c) is cfg.stmt_of(feed):
+                    closers.append((tk, c))
+            except Unsupported:
+                pass
+    # (b) the class's own feed() override closes after delegating to HTMLParser.feed
+    fm = cx.corpus.lookup_method(ci, "feed") if ci is not None else None
+    if fm is not None:
+        k_fn = fm
+        sup = [c for c in fm.local_nodes() if isinstance(c, ast.Call) and unparse(c.func) in ("super().feed", "HTMLParser.feed")]
+        fcfg = get_cfg(fm)
+        for c in fm.local_nodes():
+            if isinstance(c, ast.Call) and unparse(c.func) in ("self.close", "super().close", "self.goahead") and sup:
+                if unparse(c.func) == "self.goahead" and not (c.args and isinstance(c.args[0], ast.Constant) and c.args[0].value):
+                    continue
+                if all(fcfg.dominates(fcfg.stmt_of(s_), fcfg.stmt_of(c)) for s_ in sup):
+                    closers.append((fm, c))
+    owner = k_fn or tk
+    k = f"{owner.fq}|whole fragment tokenized (close after feed)"
+    if closers:
+        rep.ok("C17.R1", k, closers[0][0].module.site(closers[0][1]), f"{short(closers[0][1], 30)} flushes what the parser still buffers")
+    elif ci is None:
+        raise Unsupported(f"{tk.qualname}: cannot tell which parser class `{short(recv, 30)}` is")
+    else:
+        where = fm if fm is not None else tk
+        rep.violation(
+            "C17.R1",
+            k,
+            where.module.site(feed if where is tk else where.node),
+            f"the fragment is fed to {ci.name} but the parser is never closed: html.parser keeps an unterminated tag, comment or reference at the end of "
+            "the input in its buffer, so that tail is in no node of the tree. `<img src=\"a\">\\n<b` then looks like a lone <img>: it is converted to an image and "
+            "the `<b` is silently dropped, although the block is not one of the convertible forms and must pass through as raw HTML with exactly its source text",
+        )
 
 
 def _fresh_tokenizer(cx: Ctx, rep: Report) -> None:
     """The tree html_to_nodes converts comes from a parser object built for this fragment (or reset before it is fed):
     html.parser.HTMLParser keeps ``rawdata`` and its CDATA mode (after ``<script>``/``<style>``) between feed() calls."""
     fi, m = cx.fi, cx.mod
-    toks = [c for c in fi.local_nodes() if isinstance(c, ast.Call) and dotted(c.func) and any(isinstance(x, ast.Name) and x.id == cx.p_text for a in c.args for x in ast.walk(a)) and cx.corpus.find_function(m.resolve(dotted(c.func))) is not None and cx.corpus.find_function(m.resolve(dotted(c.func))).module.name.endswith("parse_html")]
+    toks = [c for c in fi.local_nodes() if _is_tokenizer_call(cx, c)]
     if len(toks) != 1:
         raise Unsupported(f"expected one call of the HTML tokenizer on the text in html_to_nodes, found {len(toks)}")
-    tk = cx.corpus.find_function(m.resolve(dotted(toks[0].func)))
+    if isinstance(toks[0].func, ast.Attribute) and toks[0].func.attr == "feed" and _parse_html_class_of(cx, m, toks[0].func.value, fi) is not None:
+        tk, feed = fi, toks[0]  # html_to_nodes feeds a parser object itself
+    else:
+        tk = cx.corpus.find_function(m.resolve(dotted(toks[0].func)))
+        feeds = [c for c in tk.local_nodes() if isinstance(c, ast.Call) and isinstance(c.func, ast.Attribute) and c.func.attr == "feed"]
+        if len(feeds) != 1:
+            raise Unsupported(f"{tk.qualname}: expected one .feed(...) call, found {len(feeds)}")
+        feed = feeds[0]
     rep.saw_function(tk.fq)
     tm = tk.module
-    feeds = [c for c in tk.local_nodes() if isinstance(c, ast.Call) and isinstance(c.func, ast.Attribute) and c.func.attr == "feed"]
-    if len(feeds) != 1:
-        raise Unsupported(f"{tk.qualname}: expected one .feed(...) call, found {len(feeds)}")
-    feed = feeds[0]
     recv = feed.func.value
+    _whole_fragment_consumed(cx, rep, tk, feed)
     k = f"{tk.fq}|parser state is per fragment"
     site = tm.site(feed)
 
@@ -999,14 +1233,14 @@ def _fresh_tokenizer(cx: Ctx, rep: Report) -> None:
         vals = [parent(x).value for x in stores if isinstance(parent(x), (ast.Assign, ast.AnnAssign)) and getattr(parent(x), "value", None) is not None]
         if stores and len(vals) == len(stores) and all(is_ctor(v) for v in vals):
             # every definition is a fresh construction; it must happen on every call (not under a cache-miss test)
-            if all(not cfg.guards(cfg.stmt_of(x)) for x in stores):
-                rep.ok("C17.R1", k, site, f"{recv.id} = {short(vals[0], 50)} in the call")
+            if any(cfg.dominates(cfg.stmt_of(x), fst) for x in stores):
+                rep.ok("C17.R1", k, site, f"{recv.id} = {short(vals[0], 50)} on every path to the feed")
                 return
         if not stores and (recv.id in tm.const_nodes or recv.id not in tk.params):
             rep.violation("C17.R1", k, site, f"`{recv.id}` is one parser object shared by all calls: an earlier fragment that leaves html.parser in CDATA mode or with buffered text (an inline `<script>`, an unfinished tag) makes later <img>/<div class=admonition> fragments tokenize to nothing, so they are not converted")
             return
         globs = {nm for n in tk.local_nodes() if isinstance(n, ast.Global) for nm in n.names} | set(tm.const_nodes)
-        if any(memoised(v) for v in vals) or any(isinstance(v, ast.Name) and v.id in globs and v.id not in tk.params for v in vals) or any(isinstance(v, (ast.Subscript, ast.Attribute)) or (isinstance(v, ast.Call) and isinstance(v.func, ast.Attribute) and v.func.attr in ("get", "setdefault", "pop")) for v in vals) or any(cfg.guards(cfg.stmt_of(x)) for x in stores):
+        if any(memoised(v) for v in vals) or any(isinstance(v, ast.Name) and v.id in globs and v.id not in tk.params for v in vals) or any(isinstance(v, (ast.Subscript, ast.Attribute)) or (isinstance(v, ast.Call) and isinstance(v.func, ast.Attribute) and v.func.attr in ("get", "setdefault", "pop")) for v in vals) or (stores and not any(cfg.dominates(cfg.stmt_of(x), fst) for x in stores)):
             rep.violation("C17.R1", k, site, f"`{recv.id}` can be a parser object kept from an earlier call (`{short(vals[0], 40) if vals else '?'}`) and is fed without reset(): html.parser state (CDATA mode after `<script>`, buffered text) leaks into this fragment, so a later <img>/<div class=admonition> is not converted")
             return
         raise Unsupported(f"{tk.qualname}: cannot see where `{recv.id}` comes from")
@@ -1266,10 +1500,15 @@ def r2_gfm_filter(corpus: Corpus, rep: Report, tier: str):
         rep.violation("C17.R2", k, m.site(flt.call), f"count={unparse(flt.count)}: only the first occurrence(s) are neutralised")
     # subject and target
     k = f"{fi.fq}|filters the source text in place"
+    fvar = flt.target  # the variable that holds the filtered text
     if isinstance(flt.string, ast.Name) and flt.string.id == cx.p_text and flt.target == cx.p_text:
         rep.ok("C17.R2", k, m.site(flt.stmt))
-    elif isinstance(flt.string, ast.Name) and flt.string.id == cx.p_text:
-        raise Unsupported(f"filtered text is stored in `{flt.target}`, not back into `{cx.p_text}`")
+    elif isinstance(flt.string, ast.Name) and flt.string.id in (cx.p_text, fvar):
+        # `raw_text = text; if gfm_only: raw_text = RE.sub(.., text)`: the filtered copy is a second variable
+        others = [d for d in cx.defs_of(fvar) if not (d is flt.call or (isinstance(d, ast.Tuple) and _stmt_of_safe(cx, d) is flt.stmt))]
+        if not others or not all(isinstance(d, ast.Name) and d.id == cx.p_text for d in others):
+            raise Unsupported(f"`{fvar}` (the filtered text) has definitions other than `{cx.p_text}` and the filter")
+        rep.ok("C17.R2", k, m.site(flt.stmt), f"filtered copy kept in `{fvar}`")
     else:
         rep.violation("C17.R2", k, m.site(flt.stmt), f"the filter is applied to `{short(flt.string, 40) if flt.string is not None else '?'}`, not to the text that is passed on")
     # guard
@@ -1303,13 +1542,27 @@ def r2_gfm_filter(corpus: Corpus, rep: Report, tier: str):
     # dominance: every use of the text and every return is after the filter (on the gfm path)
     fedge = ("F", flt.if_stmt)
     points: dict[ast.stmt, str] = {}
+    unfiltered_emitted: list[ast.Name] = []
     for n in fi.local_nodes():
-        if isinstance(n, ast.Name) and n.id == cx.p_text and isinstance(n.ctx, ast.Load):
+        if isinstance(n, ast.Name) and n.id == fvar and isinstance(n.ctx, ast.Load):
             st = cfg.stmt_of(n)
             if st is not flt.stmt:
                 points.setdefault(st, "use of the text")
         elif isinstance(n, ast.Return):
             points.setdefault(cfg.stmt_of(n), "return")
+        if fvar != cx.p_text and isinstance(n, ast.Name) and n.id == cx.p_text and isinstance(n.ctx, ast.Load):
+            # the unfiltered parameter may feed the filter, the initial copy and the tokenizer, but must not be emitted
+            p_ = parent(n)
+            if isinstance(p_, ast.Call) and n in p_.args and dotted(p_.func) and not _is_tokenizer_call(cx, p_) and p_ is not flt.call:
+                callee = corpus.find_function(m.resolve(dotted(p_.func)))
+                if callee is not None and any(isinstance(c, ast.Call) and _resolves(callee.module, c.func, "docutils.nodes.raw") for c in callee.local_nodes()):
+                    unfiltered_emitted.append(n)
+                elif callee is None or not callee.module.name.endswith("parse_html"):
+                    raise Unsupported(f"cannot tell whether `{short(p_, 50)}` emits the unfiltered text")
+    for n in unfiltered_emitted:
+        st = cfg.stmt_of(n)
+        k = f"{fi.fq}|unfiltered text emitted|{short(st, 90)}|{_where(st)}"
+        rep.violation("C17.R2", k, m.site(st), f"`{short(parent(n), 60)}` passes the unfiltered `{cx.p_text}` through although the GFM-filtered copy is `{fvar}`: in gfm_only mode disallowed tags reach the output on this path ({_where(st)})")
     for st, kind in sorted(points.items(), key=lambda kv: kv[0].lineno):
         hdr = st.test if isinstance(st, (ast.If, ast.While)) else st
         k = f"{fi.fq}|filter precedes|{short(hdr, 90)}|{_where(st)}"
@@ -2154,8 +2407,27 @@ def r5_raw_nodes_survive(corpus: Corpus, rep: Report, tier: str):
             cfg = get_cfg(fn)
             # (b) the security filter
             gs = cfg.guards(loop)
-            if any((not pol) and any((isinstance(x, ast.Attribute) and x.attr == "raw_enabled") or (isinstance(x, ast.Constant) and x.value == "raw_enabled") for x in ast.walk(t)) for t, pol in gs):
-                rep.ok("C17.R5", k, site, "only when the docutils setting raw_enabled is false (raw content disabled by the user)")
+
+            def raw_enabled_read(t):
+                """``X.raw_enabled`` -> (True, None); ``getattr(X, "raw_enabled", D)`` -> (True, D); else None"""
+                if isinstance(t, ast.Attribute) and t.attr == "raw_enabled":
+                    return (True, None)
+                if isinstance(t, ast.Call) and dotted(t.func) == "getattr" and len(t.args) >= 2 and isinstance(t.args[1], ast.Constant) and t.args[1].value == "raw_enabled":
+                    return (True, t.args[2] if len(t.args) > 2 else None)
+                return None
+
+            atomic = [(raw_enabled_read(t), pol) for t, pol in gs]
+            implied = [r for r, pol in atomic if r is not None and not pol]
+            mentions = [t for t, pol in gs if any(raw_enabled_read(x) is not None for x in ast.walk(t))]
+            if implied:
+                dflt = implied[0][1]
+                if dflt is not None and not (isinstance(dflt, ast.Constant) and dflt.value is True):
+                    rep.violation("C17.R5", k, site, f"the raw_enabled filter reads the setting with default `{short(dflt, 20)}`: when the docutils settings lack the attribute (parser used without registered settings) every raw HTML node is replaced although raw content was not disabled")
+                else:
+                    rep.ok("C17.R5", k, site, "only when the docutils setting raw_enabled is false (raw content disabled by the user)")
+                continue
+            if mentions:
+                rep.violation("C17.R5", k, site, f"the raw nodes are replaced under `{short(mentions[0], 80)}`, which can hold while raw_enabled is true: HTML written in the document is then removed from the output although raw content is allowed")
                 continue
             # (a) a deep copy made on every path
             if isinstance(root, ast.Name):
@@ -2490,6 +2762,48 @@ def mutants(corpus: Corpus):
         add("c17-extension-switch-undone-in-place", "C17.R6", splice(fsrc, tr_.finalbody[0], f'{path_}.discard("html_image")'), "FigureMarkdown.run", rel_=fm.module.rel, note="seed class: html_image switched off although it was enabled")
     else:
         out.append(("c17-extension-switch-mutants", "figure-md no longer saves a copy of enable_extensions before a try/finally"))
+    # ---- round-5 seed classes ----
+    rootdef = find_stmt(fi, lambda s_: isinstance(s_, ast.Assign) and _is_tokenizer_call(cx, next((c for c in ast.walk(s_.value) if _is_tokenizer_call(cx, c)), None)))
+    if rootdef is not None and isinstance(rootdef.targets[0], ast.Name):
+        rn = rootdef.targets[0].id
+        ind = " " * rootdef.col_offset
+        seg = ast.get_source_segment(src, rootdef)
+        add("c17-root-filtered-to-named-elements", "C17.R1", splice(src, rootdef, f"{seg}\n{ind}{rn} = [c for c in {rn} if c.name]"), "discards only white-space text", note="seed class: text/comments between convertible elements dropped before the gate")
+        add("c17-root-filtered-to-tags", "C17.R1", splice(src, rootdef, f"{seg}\n{ind}{rn} = [c for c in {rn} if not isinstance(c, Data)]"), "discards only white-space text")
+        tcall = next(c for c in ast.walk(rootdef.value) if _is_tokenizer_call(cx, c))
+        if isinstance(tcall.func, ast.Name):
+            add("c17-module-level-tokenizer-fed-directly", "C17.R1", splice(src, tcall, "_HTML_TOKENIZER.feed(" + ast.get_source_segment(src, tcall.args[0]) + ")").replace("from myst_parser.parsers.parse_html import ", "from myst_parser.parsers.parse_html import HtmlToAst, ", 1).replace(f"def {fi.name}(", f"_HTML_TOKENIZER = HtmlToAst()\n\n\ndef {fi.name}(", 1), "parser state is per fragment", note="seed class: one parser object for all fragments, fed by html_to_nodes itself")
+    pstrip = find_node(fi, lambda n: isinstance(n, ast.Attribute) and n.attr == "children" and isinstance(parent(n), ast.Call) and isinstance(parent(n).func, ast.Attribute) and parent(n).func.attr == "extend")
+    if pstrip is not None:
+        add("c17-paragraph-children-stripped", "C17.R1", splice(src, pstrip, ast.get_source_segment(src, pstrip.value) + ".strip().children"), "inner white space kept", note="seed class: blank between two inline elements of a <p> dropped")
+    if flt.stmt is not None and flt.if_stmt is not None and flt.target == cx.p_text and gate is not None:
+        # the filtered text kept in a second variable, one pass-through site left on the unfiltered parameter
+        lines = src.splitlines(keepends=True)
+        f0, f1 = flt.if_stmt.lineno - 1, flt.if_stmt.end_lineno
+        head = "".join(lines[:f0])
+        fblk = "".join(lines[f0:f1]).replace(f"{cx.p_text}, _ =", "raw_text, _ =", 1).replace(f"{cx.p_text} =", "raw_text =", 1)
+        rest = "".join(lines[f1:])
+        keep = ast.get_source_segment(src, gate.body[-1])
+        import re as _re
+        rest2 = _re.sub(r"default_html\(\s*" + cx.p_text + r"\b", "default_html(raw_text", rest)
+        rest2 = rest2.replace(_re.sub(r"default_html\(\s*" + cx.p_text + r"\b", "default_html(raw_text", keep), keep, 1) if keep else rest2
+        indf = " " * flt.if_stmt.col_offset
+        if rest2 != rest:
+            add("c17-filtered-copy-not-used-at-one-site", "C17.R2", head + f"{indf}raw_text = {cx.p_text}\n" + fblk + rest2, "unfiltered text emitted", note="seed class: interaction gfm_only x html extension")
+    for modname, q in (("parsers.docutils_", "Parser.parse"), ("parsers.sphinx_", "MystParser.parse")):
+        pf = corpus.func(f"{modname}:{q}")
+        g_ = find_node(pf, lambda n: isinstance(n, ast.If) and "raw_enabled" in unparse(n.test) and isinstance(n.test, ast.UnaryOp))
+        if g_ is not None:
+            inner = ast.get_source_segment(pf.module.src, g_.test.operand)
+            add(f"c17-raw-filter-also-on-file-insertion-{modname.split('.')[-1]}", "C17.R5", splice(pf.module.src, g_.test, f'not ({inner} and getattr(document.settings, "file_insertion_enabled", True))'), "raw nodes of document", rel_=pf.module.rel, note="seed class: filter fires while raw content is enabled")
+            ga = find_node(pf, lambda n: isinstance(n, ast.Call) and dotted(n.func) == "getattr" and len(n.args) == 3 and isinstance(n.args[1], ast.Constant) and n.args[1].value == "raw_enabled")
+            if ga is not None and modname == "parsers.docutils_":
+                add("c17-raw-filter-default-false", "C17.R5", splice(pf.module.src, ga.args[2], "False"), "raw nodes of document", rel_=pf.module.rel)
+    hfeed = corpus.lookup_method(corpus.cls("parsers.parse_html:HtmlToAst"), "feed")
+    if hfeed is not None:
+        cl = find_stmt(hfeed, lambda s_: isinstance(s_, ast.Expr) and isinstance(s_.value, ast.Call) and unparse(s_.value.func) in ("self.close", "super().close"))
+        if cl is not None:
+            add("c17-parser-not-closed-after-feed", "C17.R1", splice(hfeed.module.src, cl, "pass"), "close after feed", rel_=hfeed.module.rel, note="revert: unterminated tail of the fragment is dropped")
     tk = corpus.find_function(m.resolve("tokenize_html"))
     if tk is not None:
         asg = find_stmt(tk, lambda s_: isinstance(s_, ast.Assign) and isinstance(s_.value, ast.Call) and corpus.find_class(tk.module.resolve(dotted(s_.value.func) or "")) is not None)
